@@ -242,7 +242,7 @@ def build(fc, params):
     if fc == "ttfnaive":
         return TransformedTargetForecaster([("t", Shift(c=g("t__c", 1))),
                                             ("f", NaiveForecaster(strategy=g("f__strategy", "last"),
-                                                                  window_length=g("f__window_length", None)))])
+                                                                  window_length=g("f__window_length", 4)))])
     if fc == "muxreal":
         return MultiplexForecaster([("naive", NaiveForecaster(strategy=g("naive__strategy", "last"))),
                                     ("poly", PolynomialTrendForecaster(degree=g("poly__degree", 1)))],
@@ -766,7 +766,9 @@ def _rand_grid(rng, fc):
         "ttf": {"f__a": [1, 2, 3], "f__b": [0, 1, 2], "t__c": [0, 1, 2, -3]},
         "mux": {"selected_forecaster": ["x", "y"], "x__b": [0, 1, 2], "y__b": [0, 1, 2]},
         "naive": {"strategy": ["last", "mean", "drift"], "sp": [1, 2], "window_length": [2, 3, 4]},
-        "ttfnaive": {"f__strategy": ["last", "mean", "drift"], "f__window_length": [2, 3], "t__c": [0, 1, 2]},
+        # exact float arithmetic only (dyadic y, windows 2/4, no drift): candidates that differ in t__c alone are
+        # mathematically tied, and must then be tied as floats too
+        "ttfnaive": {"f__strategy": ["last", "mean"], "f__window_length": [2, 4], "t__c": [0, 1, 2]},
         "muxreal": {"selected_forecaster": ["naive", "poly"], "naive__strategy": ["last", "mean"], "poly__degree": [1, 2]},
     }[fc]
     nd = rng.choice([1, 1, 1, 2, 2, 3])
@@ -812,6 +814,10 @@ def _random_case(rng):
             "origin": rng.choice([0, 0, 5, -3]), "yseed": rng.randrange(1000),
             "strategy": rng.choice(["refit", "refit", "update"]), "refit": rng.random() < 0.8,
             "fitfh": rng.choice([None, None, [1, 2], [1]]), "ops": _rand_ops(rng), "tab": {}}
+    if fc == "ttfnaive":
+        case["cv"]["wl"] = max(case["cv"]["wl"], 4)
+        if case["cv"]["iw"] is not None and case["cv"]["iw"] <= case["cv"]["wl"]:
+            case["cv"]["iw"] = None
     if fc in CONTROLLED:
         case["metric"] = "ctl"
         case["gib"] = rng.random() < 0.4
